@@ -74,30 +74,37 @@ def sccAttach (c : Ctx n) (d : Diag n) (dsub : Diag n) (comp : List (Fin n)) (at
         | none => d) d) r1.1
   (setExp d2 attachAt, r1.2.2)
 
+/-- ordinary expansion of `node`; its successors join the next level -/
+def normalStep (c : Ctx n) (node : Nat) (next : List Nat) (d : Diag n) : Diag n × List Nat × Bool :=
+  let r := expandNode c d node
+  if !r.2 then (r.1, next, false) else (r.1, addSet (r.1.succs node) next, true)
+
+/-- all components of one node: every component diagram is expanded (recursively, by `sub`) and attached at each of the
+    current attachment points; an error raised while a component diagram is expanded (stable-motif limit) leaves what
+    was attached so far -/
+def sccAttachAll (sub : Ctx n → Diag n × Outcome) (c : Ctx n) (p : Space n) (node : Nat)
+    (comps : List (List (Fin n))) (d : Diag n) : Diag n × List Nat × Bool :=
+  comps.foldl (fun (acc : Diag n × List Nat × Bool) comp =>
+      if !acc.2.2 then acc else
+      let r := sub (subCtx c p comp)
+      match r.2 with
+      | .err => (acc.1, acc.2.1, false)
+      | _ =>
+        let x := acc.2.1.foldl (fun (a : Diag n × List Nat) at_ =>
+          let x := sccAttach c a.1 r.1 comp at_
+          (x.1, a.2 ++ x.2)) (acc.1, [])
+        (x.1, x.2, true)) (d, [node], true)
+
 /-- one node of a level; `sub` expands the diagram of a component context (the recursive call) -/
 def sccNode (sub : Ctx n → Diag n × Outcome) (c : Ctx n) (rank : Fin n → Nat) (d : Diag n) (node : Nat) (next : List Nat) :
     Diag n × List Nat × Bool :=
-  let p := d.space node
-  let normal (d : Diag n) : Diag n × List Nat × Bool :=
-    let (d', okk) := expandNode c d node
-    if !okk then (d', next, false) else (d', addSet (d'.succs node) next, true)
-  match sourceSCCs c.N p rank with
-  | [] => normal d
-  | [_] => normal d
+  match sourceSCCs c.N (d.space node) rank with
+  | [] => normalStep c node next d
+  | [_] => normalStep c node next d
   | comps =>
-    -- an error raised while a component diagram is expanded (stable-motif limit) leaves what was attached so far
-    let r := comps.foldl (fun (acc : Diag n × List Nat × Bool) comp =>
-        if !acc.2.2 then acc else
-        let (dsub, o) := sub (subCtx c p comp)
-        match o with
-        | .err => (acc.1, acc.2.1, false)
-        | _ =>
-          let x := acc.2.1.foldl (fun (a : Diag n × List Nat) at_ =>
-            let x := sccAttach c a.1 dsub comp at_
-            (x.1, a.2 ++ x.2)) (acc.1, [])
-          (x.1, x.2, true)) (d, [node], true)
+    let r := sccAttachAll sub c (d.space node) node comps d
     if !r.2.2 then (r.1, next, false)
-    else if r.2.1 == [node] then normal r.1 else (r.1, addSet r.2.1 next, true)
+    else if r.2.1 == [node] then normalStep c node next r.1 else (r.1, addSet r.2.1 next, true)
 
 def sccLevel (sub : Ctx n → Diag n × Outcome) (c : Ctx n) (rank : Fin n → Nat) :
     List Nat → Diag n → List Nat → Diag n × List Nat × Bool
